@@ -113,13 +113,17 @@ def C10_ifexpr_Statement : Prop := ∀ (defs : Defs Body) (e : Expr), evC e defs
     intermediate result that chibicc types `int` (results of `< <= > >= == != ! && ||` and arithmetic
     on them) leaves the 32-bit range when the expression is evaluated by the rules of C11 – chibicc
     computes exactly the C11 value: same truth value, same diagnostics (division by zero in an
-    evaluated operand; `&&`, `||`, `?:` do not evaluate the operand not selected). -/
-theorem C10_ifexpr_partial (defs : Defs Body) (e : Expr) (h : intResultOverflows defs e = false) :
+    evaluated operand; `&&`, `||`, `?:` do not evaluate the operand not selected).  Expressions
+    whose behaviour C11 leaves undefined (`undefinedByC11`: signed overflow, shift count out of range)
+    are excluded: nothing is required there (chibicc wraps around). -/
+theorem C10_ifexpr_partial (defs : Defs Body) (e : Expr) (h : intResultOverflows defs e = false)
+    (hu : undefinedByC11 defs e = false) :
     evC e defs = ev e defs :=
-  evC_eq_ev_of_no_overflow defs e h
+  evC_eq_ev_of_no_overflow defs e h hu
 
 /-- non-vacuity: `-1 < 0u` lies outside the region and is false; `0 && 1/0` is accepted and false -/
 example : intResultOverflows [] (.bin .lt (.un .neg (.num 1 false)) (.num 0 true)) = false ∧
+    undefinedByC11 [] (.bin .lt (.un .neg (.num 1 false)) (.num 0 true)) = false ∧
     ev (.bin .lt (.un .neg (.num 1 false)) (.num 0 true)) [] = .ok false ∧
     ev (.bin .land (.num 0 false) (.bin .div (.num 1 false) (.num 0 false))) [] = .ok false := by decide
 
@@ -165,21 +169,22 @@ def C10_groups_c11_Statement : Prop :=
   ∀ (ls : List (Line Expr Body)) (d : Defs Body), condMachine evC ls d = groups ev ls d
 
 /-- **C10 (groups against C11 arithmetic, partial).**  If no controlling expression of the unit lies
-    in the region (under any macro table), the machine with chibicc's evaluator produces exactly what
+    in the region or has undefined behaviour (under any macro table), the machine with chibicc's evaluator produces exactly what
     the C11 grammar tree with the C11 evaluator produces. -/
 theorem C10_groups_c11_partial (ls : List (Line Expr Body)) (d : Defs Body)
-    (h : ∀ c ∈ conds ls, ∀ d', intResultOverflows d' c = false) :
+    (h : ∀ c ∈ conds ls, ∀ d', intResultOverflows d' c = false ∧ undefinedByC11 d' c = false) :
     condMachine evC ls d = groups ev ls d := by
-  rw [condMachine_congr evC ev ls (fun c hc d' => C10_ifexpr_partial d' c (h c hc d')) d]
+  rw [condMachine_congr evC ev ls (fun c hc d' => C10_ifexpr_partial d' c (h c hc d').1 (h c hc d').2) d]
   exact C10_groups ev ls d
 
 /-- non-vacuity: a unit whose conditions are comparisons shifted by less than 31 -/
 example : ∀ c ∈ conds ([.opens (.ifE (.bin .shl (.bin .lt (.num 1 false) (.num 2 false)) (.num 3 false))),
       .plain (.text ["a"]), .part (.elif (.num 1 true)), .endif false] : List (Line Expr Body)),
-    ∀ d', intResultOverflows d' c = false := by
+    ∀ d', intResultOverflows d' c = false ∧ undefinedByC11 d' c = false := by
   intro c hc d'
   simp only [conds, List.filterMap_cons, Line.cond?, List.filterMap_nil, List.mem_cons, List.not_mem_nil, or_false] at hc
-  rcases hc with rfl | rfl <;> (rw [intResultOverflows_closed _ _ (by decide)]; decide)
+  rcases hc with rfl | rfl <;>
+    (rw [intResultOverflows_closed _ _ (by decide), undefinedByC11_closed _ _ (by decide)]; decide)
 
 -- ================================================================== include search
 
